@@ -32,6 +32,7 @@ PID = "C10"
 CORPUS = os.path.join(build.VERIF, "corpus", "c10")
 OVERREAD_KEYS = ("C10|asan|heap-buffer-overflow|dec_bits_init|READ", "C10|asan|heap-buffer-overflow|dec_get_bits|READ")
 BATCH = 250
+BATCH_ALARM = 20  # in-process watchdog per input inside a batch (libFuzzer's -timeout=20): only triggers a re-run alone
 SINGLE_TIMEOUT = 60.0  # one input alone normally takes < 1 s under ASan; a watchdog hit is only "inconclusive"
 
 
@@ -64,7 +65,7 @@ def _hang_site(exe, args, env):
     stacks = []
     try:
         time.sleep(5.0)
-        for _ in range(4):
+        for _ in range(8):
             if p.poll() is not None:
                 break
             r = subprocess.run(["gdb", "-p", str(p.pid), "-batch", "-ex", "bt 40"], stdout=subprocess.PIPE,
@@ -76,7 +77,7 @@ def _hang_site(exe, args, env):
                     fr.append(m.group(1))
             if fr:
                 stacks.append(list(reversed(fr)))  # outermost first
-            time.sleep(0.7)
+            time.sleep(0.3)
     except (subprocess.TimeoutExpired, OSError):
         pass
     finally:
@@ -96,12 +97,16 @@ def _hang_site(exe, args, env):
     return common[-1] if common else stacks[0][0]
 
 
-def run_single(exe, path, slack, prefix, want_hang_site=True):
+def run_single(exe, path, slack, prefix, want_hang_site=True, recover=False):
     """-> dict(keys=[(key, excerpt)], rc, timed_out, line) for one input file in its own process."""
     for f in os.listdir(os.path.dirname(prefix)):
-        if f.startswith(os.path.basename(prefix) + "."):
+        if f.startswith(os.path.basename(prefix) + ".") and not f.endswith(".in"):
             os.unlink(os.path.join(os.path.dirname(prefix), f))
-    env = sanlog.env_for("fuzz", prefix)
+    # alone, the process stops at its first ASan error (that report is the case's key; what would follow is the
+    # consequence of memory that is already wrong); UBSan reports before it are all collected
+    # (recover=True, used for inputs that stalled their batch: keep going after reports so that a hang behind an
+    # invalid read can show itself)
+    env = sanlog.env_for("fuzz", prefix, extra_asan="halt_on_error=%d" % (0 if recover else 1))
     env["SVT_LOG"] = "0"
     args = ["--slack", str(slack), path]
     r = core.run([exe] + args, timeout=SINGLE_TIMEOUT, env=env)
@@ -143,13 +148,14 @@ class BatchStats:
         self.dirty = []  # (index in pack, reason)
         self.cov = None
         self.restarts = 0
+        self.abandoned = 0
         self.sigs = set()
 
 
 _E = re.compile(r"E (\d+) rc=([0-9a-f]+) calls=(\d+) pics=(\d+) obus=([0-9a-f]+) dirty=(\d+) asan=(\d+)")
 
 
-def run_pack(exe, pack, n_inputs, slack, prefix, want_cov=True):
+def run_pack(exe, pack, n_inputs, slack, prefix, want_cov=True, budget=None):
     """Run inputs 0..n_inputs-1 of a pack, restarting behind crashes/stalls/ASan stops. -> BatchStats"""
     st = BatchStats()
     start = 0
@@ -160,16 +166,22 @@ def run_pack(exe, pack, n_inputs, slack, prefix, want_cov=True):
            "UBSAN_OPTIONS": "halt_on_error=0:print_stacktrace=0:symbolize=0"}
     covfile = prefix + ".cov"
     while start < n_inputs:
-        args = [exe, "--slack", str(slack), "--stop-on-asan", "--from", str(start)]
+        if budget is not None and budget.exhausted():
+            st.abandoned = n_inputs - start
+            break
+        args = [exe, "--slack", str(slack), "--stop-on-asan", "--alarm", str(BATCH_ALARM), "--from", str(start)]
         if want_cov:
             args += ["--cov", covfile]
         args.append(pack)
-        r = core.run(args, timeout=max(180.0, 1.0 * (n_inputs - start)), env=env)
+        r = core.run(args, timeout=max(240.0, 2.0 * (n_inputs - start)), env=env)
         last_b = None
         done = start
+        stalled = None
         for ln in r.out.splitlines():
             if ln.startswith("B "):
                 last_b = int(ln.split()[1])
+            elif ln.startswith("T "):
+                stalled = int(ln.split()[1])
             elif ln.startswith("E "):
                 m = _E.match(ln)
                 if not m:
@@ -198,7 +210,10 @@ def run_pack(exe, pack, n_inputs, slack, prefix, want_cov=True):
                 st.cov = bytearray(x | y for x, y in zip(st.cov, b))
         if last_b is not None:
             # died or stalled inside input last_b
-            st.dirty.append((last_b, "watchdog" if r.timed_out else "process ended (status %s)" % r.rc))
+            is_stall = r.timed_out or stalled == last_b
+            if is_stall and budget is not None:
+                budget.stall()
+            st.dirty.append((last_b, "watchdog" if is_stall else "process ended (status %s)" % r.rc))
             st.execs += 1
             done = last_b + 1
             st.restarts += 1
@@ -219,30 +234,78 @@ def _overread_open(chk):
     return any(core.match_known(PID, k, chk.known) is not None for k in OVERREAD_KEYS)
 
 
-def _judge_dirty(chk, exe, inp, slack, ident, desc, tag, prefix):
-    """Re-run one dirty input alone; report its keys. -> list of keys"""
+class Budget:
+    """Bounds the work spent on re-running dirty inputs.  A defect that nearly every input reaches (or a reproducible
+    hang, which costs minutes per witness) makes the exploration pointless until it is repaired or listed: the
+    remaining batches are then skipped and the evidence says so.  Never decides a verdict."""
+
+    def __init__(self, max_reruns, max_hangs, max_stalls):
+        self.max_reruns, self.max_hangs, self.max_stalls = max_reruns, max_hangs, max_stalls
+        self.reruns = 0
+        self.hangs = 0
+        self.stalls = 0
+        self.skipped_jobs = 0
+        self.skipped_dirty = 0
+        self.lock = __import__("threading").Lock()
+
+    def exhausted(self):
+        return self.reruns >= self.max_reruns or self.hangs >= self.max_hangs or self.stalls >= self.max_stalls
+
+    def stall(self):
+        with self.lock:
+            self.stalls += 1
+
+    def take_stall(self):
+        """re-runs of inputs that stalled a batch (minutes each when the hang is real): the first three only"""
+        with self.lock:
+            self.stall_reruns = getattr(self, "stall_reruns", 0) + 1
+            if self.stall_reruns > 3:
+                self.skipped_dirty += 1
+                return False
+            return True
+
+    def take(self):
+        with self.lock:
+            if self.exhausted():
+                self.skipped_dirty += 1
+                return False
+            self.reruns += 1
+            return True
+
+
+def _judge_dirty(exe, inp, slack, ident, desc, tag, prefix, budget=None, stalled=False):
+    """Re-run one dirty input alone. -> record dict (reported by _report on the main thread)"""
     path = prefix + ".in"
     open(path, "wb").write(inp)
-    res = run_single(exe, path, slack, prefix)
+    res = run_single(exe, path, slack, prefix, recover=stalled)
+    if budget is not None and res["hang"]:
+        with budget.lock:
+            budget.hangs += 1
     mode = "slack%d" % slack if slack else "strict"
     case = {"mode": mode, "slack": slack, "ident": ident, "desc": desc, "size": len(inp), "sha": hashlib.sha256(inp).hexdigest()[:16],
             "input_hex": inp.hex() if len(inp) <= 65536 else None, "session": res["line"], "rc": res["rc"]}
-    if res["timed_out"] == "once":
-        chk.inconclusive_case("C10 input %s hit the %.0f s watchdog once and finished on the re-run" % (ident, SINGLE_TIMEOUT), case)
-    out = []
-    for key, ex in res["keys"]:
-        out.append(key)
-        chk.note_set("keys_seen", key)
-        chk.violation(key, "%s mode, input %s (%s, %d bytes): %s" % (mode, ident, desc, len(inp), ex[:420]), case,
-                      name="%s-%s" % (core.sha(key), mode))
-    if not res["keys"] and tag == "batch-crash":
-        chk.inconclusive_case("C10 input %s ended its batch process abnormally but is clean alone" % ident, case)
     for f in os.listdir(os.path.dirname(prefix)):
         if f.startswith(os.path.basename(prefix) + "."):
             try:
                 os.unlink(os.path.join(os.path.dirname(prefix), f))
             except OSError:
                 pass
+    return {"case": case, "keys": res["keys"], "once": res["timed_out"] == "once", "tag": tag, "mode": mode, "ident": ident,
+            "desc": desc, "size": len(inp)}
+
+
+def _report(chk, rec):
+    case = rec["case"]
+    if rec["once"]:
+        chk.inconclusive_case("C10 input %s hit the %.0f s watchdog once and finished on the re-run" % (rec["ident"], SINGLE_TIMEOUT), case)
+    out = []
+    for key, ex in rec["keys"]:
+        out.append(key)
+        chk.note_set("keys_seen", key)
+        chk.violation(key, "%s mode, input %s (%s, %d bytes): %s" % (rec["mode"], rec["ident"], rec["desc"], rec["size"], ex[:420]),
+                      case, name="%s-%s" % (core.sha(key), rec["mode"]))
+    if not rec["keys"] and rec["tag"] == "batch-crash" and not rec["once"]:
+        chk.inconclusive_case("C10 input %s ended or stalled its batch process but is clean alone" % rec["ident"], case)
     return out
 
 
@@ -252,8 +315,8 @@ def run(chk, tier, replay=None):
     if replay:
         c = replay["case"]["case"]
         inp = bytes.fromhex(c["input_hex"])
-        keys = _judge_dirty(chk, exe, inp, int(c.get("slack", 0)), c.get("ident", "replay"), c.get("desc", ""), "replay",
-                            os.path.join(chk.dir, "replay"))
+        keys = _report(chk, _judge_dirty(exe, inp, int(c.get("slack", 0)), c.get("ident", "replay"), c.get("desc", ""),
+                                         "replay", os.path.join(chk.dir, "replay")))
         chk.count(1)
         chk.nontrivial_case("replay")
         chk.nontrivial_case("replay-keys:%s" % ",".join(keys))
@@ -283,8 +346,15 @@ def run(chk, tier, replay=None):
         for lo in range(0, n_fresh // 4, BATCH):
             jobs.append(("fresh", 8, lo, min(n_fresh // 4, lo + BATCH)))
 
+    budget = Budget(max_reruns=int((400 if quick else 4000) * max(1.0, getattr(chk, "scale", 1))), max_hangs=2,
+                    max_stalls=6 if quick else 30)
+
     def one(job):
         kind, slack, lo, hi = job
+        if kind == "fresh" and budget.exhausted():
+            with budget.lock:
+                budget.skipped_jobs += 1
+            return None
         tag = "%s-%d-%d-%d" % (kind, slack, lo, hi)
         pack = os.path.join(chk.dir, tag + ".pack")
         if kind == "corpus":
@@ -295,15 +365,16 @@ def run(chk, tier, replay=None):
             inputs = [p[0] for p in pairs]
             descs = [p[1] for p in pairs]
         mut.write_pack(pack, inputs)
-        st = run_pack(exe, pack, len(inputs), slack, os.path.join(chk.dir, tag))
+        st = run_pack(exe, pack, len(inputs), slack, os.path.join(chk.dir, tag), budget=budget if kind == "fresh" else None)
         os.unlink(pack)
         found = []
         for idx, why in st.dirty:
             ident = descs[idx] if kind == "corpus" else "seed=%d index=%d" % (chk.seed, lo + idx)
-            keys = _judge_dirty(chk, exe, inputs[idx], slack, ident, descs[idx],
-                                "batch-crash" if why != "sanitizer output" else "dirty",
-                                os.path.join(chk.dir, tag + "-%d" % idx))
-            found.append((ident, keys))
+            if kind != "corpus" and not (budget.take_stall() if why == "watchdog" else budget.take()):
+                continue
+            found.append(_judge_dirty(exe, inputs[idx], slack, ident, descs[idx],
+                                      "batch-crash" if why != "sanitizer output" else "dirty",
+                                      os.path.join(chk.dir, tag + "-%d" % idx), budget, stalled=(why == "watchdog")))
         hashes = set(hashlib.sha256(b).digest()[:8] for b in inputs)
         nontriv = set(hashlib.sha256(inputs[i]).hexdigest()[:12] for i in st.sigs if i < len(inputs))
         return kind, slack, st, hashes, nontriv, found
@@ -315,13 +386,20 @@ def run(chk, tier, replay=None):
     distinct = set()
     rcs = {}
     obus = 0
-    for kind, slack, st, hashes, nontriv, found in results:
+    for res in results:
+        if res is None:
+            continue
+        kind, slack, st, hashes, nontriv, found = res
+        for rec in found:
+            _report(chk, rec)
         chk.count(st.execs)
         chk.bump("executions_%s_%s" % (kind, "slack" if slack else "strict"), st.execs)
         chk.bump("pictures_output", st.pics)
         chk.bump("inputs_with_decoded_picture", st.decoded_inputs)
         chk.bump("dirty_inputs_rerun_alone", len(st.dirty))
         chk.bump("process_restarts", st.restarts)
+        if st.abandoned:
+            chk.bump("inputs_abandoned_after_budget", st.abandoned)
         distinct |= hashes
         for h in nontriv:
             chk.nontrivial_case(h)
@@ -340,6 +418,11 @@ def run(chk, tier, replay=None):
         chk.extra["coverage_counters_hit"] = sum(1 for x in cov if x)
         chk.extra["coverage_counters_total"] = len(cov)
     chk.extra.setdefault("keys_seen", [])
+    if budget.skipped_jobs or budget.skipped_dirty or chk.extra.get("inputs_abandoned_after_budget"):
+        chk.extra["exploration_cut_short"] = {
+            "why": "budget exhausted (%d re-runs, %d stalls in batches, %d reproducible hangs): pervasive defects must be "
+                   "repaired before the rest can be explored" % (budget.reruns, budget.stalls, budget.hangs),
+            "batches_skipped": budget.skipped_jobs, "dirty_inputs_not_rerun": budget.skipped_dirty}
     chk.sample({"corpus": len(corpus_inputs), "fresh": n_fresh, "mutator_seed": chk.seed, "example": mut.mutant(chk.seed, 0, mut_seeds)[1]})
     return chk.finish(
         rule="cases = every file of corpus/c10 (strict%s) + mutant(VERIF_SEED, i, seeds) for i < N (strict%s); one decoder "
@@ -369,9 +452,68 @@ def triage(exe, files, slack, outdir, workers=6):
     return table, clean
 
 
+def minimise(exe, inp, key, slack, workdir, max_tests=400):
+    """Greedy structure-aware + chunk-deletion minimiser: keeps `key` among the keys of the input run alone.
+    -> (bytes, tests)"""
+    mut = _mutator()
+    os.makedirs(workdir, exist_ok=True)
+    tests = [0]
+    barekey = key
+
+    def has(b):
+        if tests[0] >= max_tests:
+            return False
+        tests[0] += 1
+        path = os.path.join(workdir, "m.in")
+        open(path, "wb").write(b)
+        res = run_single(exe, path, slack, os.path.join(workdir, "m"), want_hang_site=False)
+        return any(k == barekey for k, _ in res["keys"])
+
+    if not has(inp):
+        return None, tests[0]
+    best = inp
+    # 1. drop whole calls / OBUs
+    ctl, calls = mut.parse_input(best)
+    if ctl & mut.CTL_MULTI and len(calls) > 1:
+        i = len(calls) - 1
+        while i >= 0 and len(calls) > 1:
+            cand = calls[:i] + calls[i + 1:]
+            b = mut.build_input(ctl, cand)
+            if has(b):
+                calls = cand
+                best = b
+            i -= 1
+    # 2. chunk deletion on the raw bytes (keep the control byte)
+    n = max(1, (len(best) - 1) // 2)
+    while n >= 1 and tests[0] < max_tests:
+        i = 1
+        changed = False
+        while i < len(best) and tests[0] < max_tests:
+            cand = best[:i] + best[i + n:]
+            if len(cand) < len(best) and has(cand):
+                best = cand
+                changed = True
+            else:
+                i += n
+        if n == 1:
+            break
+        n = max(1, n // 2) if not changed or n > 1 else n
+    return best, tests[0]
+
+
 if __name__ == "__main__":
     import sys
     a = sys.argv[1:]
+    if a and a[0] == "minimise":
+        # python3 -m vf.props.c10 minimise <slack> <key> <infile> <outfile>
+        exe = harness_sa()
+        inp = open(a[3], "rb").read()
+        out, t = minimise(exe, inp, a[2], int(a[1]), a[4] + ".work")
+        if out is None:
+            print("key not reproduced by %s" % a[3])
+            sys.exit(1)
+        open(a[4], "wb").write(out)
+        print("%d -> %d bytes in %d tests" % (len(inp), len(out), t))
     if a and a[0] == "triage":
         # python3 -m vf.props.c10 triage <slack> <outdir> files...
         exe = harness_sa()
